@@ -3,7 +3,7 @@
 
 use serde_json::Value;
 
-use crate::explore::{exhaustive, random_walk, Rng};
+use crate::explore::{exhaustive, random_walk, random_walk_online, Rng};
 use crate::phases::run_scenario;
 use crate::runs::ExploreOpts;
 use crate::scenario::{BCall, Phase, RunCfg, Scenario};
@@ -25,6 +25,9 @@ pub struct GenParams {
     /// impl_* families: index into call_cfgs(true) / stream_cfgs()
     pub cfg_index: i64,
 }
+
+/// StreamApi.tla models the consumer tasks (Tasks = {1, 2}): hook-level traces may contain polls by a second task.
+const MULTI_WAKER_IN_SPEC: bool = false;
 
 fn focus_ok(c: &RunCfg, focus: &str) -> bool {
     let concurrent = c.api.ends_with("for_each");
@@ -59,7 +62,7 @@ fn append_fresh(scn: &Scenario, trace: &mut Vec<Value>, mode: &str) {
                     Call { run } if *run == r => Call { run: 1 },
                     Open { run, f, ok, defer, signal } if *run == r => Open { run: 1, f: *f, ok: *ok, defer: *defer, signal: *signal },
                     Signal { run, defer } if *run == r => Signal { run: 1, defer: *defer },
-                    Poll { run } if *run == r => Poll { run: 1 },
+                    Poll { run, w } if *run == r => Poll { run: 1, w: *w },
                     Drop { run, f } if *run == r => Drop { run: 1, f: *f },
                     DropStream { run } if *run == r => DropStream { run: 1 },
                     Abort { run } if *run == r => Abort { run: 1 },
@@ -294,6 +297,9 @@ fn cfg(api: &str, mutv: bool, control: bool) -> RunCfg {
         include: true,
         pre_signal: false,
         tx_drop: false,
+        sync_ok: vec![],
+        sync_fail: vec![],
+        sync_sig: vec![],
     }
 }
 
@@ -438,6 +444,67 @@ fn random_cfg(rng: &mut Rng, streams: bool) -> RunCfg {
     c
 }
 
+/// Makes some functions "synchronous": their user future is ready on its first poll.
+fn random_sync(rng: &mut Rng, c: &mut RunCfg, n: usize, max_fail: usize) {
+    if n == 0 || c.is_stream() || !rng.chance(1, 3) {
+        return;
+    }
+    let pct = *rng.pick(&[100u64, 50, 25]);
+    c.sync_ok = (1..=n).filter(|_| rng.next() % 100 < pct).collect();
+    if c.is_try() && max_fail > 0 && rng.chance(1, 3) {
+        let f = 1 + rng.below(n);
+        c.sync_ok.retain(|&g| g != f);
+        c.sync_fail = vec![f];
+    }
+    if c.has_channel() && !c.pre_signal && !c.sync_ok.is_empty() && rng.chance(1, 3) {
+        c.sync_sig = vec![*rng.pick(&c.sync_ok)];
+    }
+}
+
+/// The "synchronous function" variants of one option set on a graph of n functions, for the exhaustive families:
+/// all functions synchronous; all synchronous with one of them failing (try APIs); one synchronous function.
+fn sync_variants(c: &RunCfg, n: usize, h: u64) -> Vec<(String, RunCfg)> {
+    let mut out = Vec::new();
+    if n == 0 || c.is_stream() {
+        return out;
+    }
+    let mut all = c.clone();
+    all.sync_ok = (1..=n).collect();
+    out.push(("sa".to_string(), all.clone()));
+    if c.is_try() {
+        for f in 1..=n {
+            let mut v = all.clone();
+            v.sync_ok.retain(|&g| g != f);
+            v.sync_fail = vec![f];
+            out.push((format!("sf{f}"), v));
+        }
+    }
+    if c.has_channel() && !c.pre_signal {
+        // a synchronous function interrupts the run in the poll in which it is started
+        for f in 1..=n {
+            let mut v = c.clone();
+            v.sync_ok = vec![f];
+            v.sync_sig = vec![f];
+            out.push((format!("sg{f}"), v));
+        }
+        let mut v = all.clone();
+        v.sync_sig = vec![1 + (h % n as u64) as usize];
+        out.push(("sag".to_string(), v));
+    }
+    if n >= 2 {
+        let f = 1 + (h % n as u64) as usize;
+        let mut one = c.clone();
+        one.sync_ok = vec![f];
+        out.push((format!("s{f}"), one));
+        if c.is_try() && h % 2 == 0 {
+            let mut one = c.clone();
+            one.sync_fail = vec![f];
+            out.push((format!("f{f}"), one));
+        }
+    }
+    out
+}
+
 fn base_scn(id: String, n: usize, calls: Vec<BCall>, reads: Vec<Vec<usize>>, writes: Vec<Vec<usize>>) -> Scenario {
     Scenario {
         id,
@@ -448,6 +515,7 @@ fn base_scn(id: String, n: usize, calls: Vec<BCall>, reads: Vec<Vec<usize>>, wri
         calls,
         phases: vec![],
         tokio: false,
+        burn: vec![],
     }
 }
 
@@ -932,6 +1000,15 @@ pub fn generate(p: &GenParams, out: &mut Out) {
                             // mid-poll signals: a completing function interrupts the run itself
                             x.signal_inside = c.has_channel() && !c.pre_signal && (p.focus == "int" || (gi + ci) % 3 == 0);
                             exhaustive(&s, &x, p.hooks || x.signal_inside, 64, 20_000, &mut emit);
+                            // functions without an await point: the user future is ready on its first poll
+                            if (gi + ci) % 2 == 0 || thorough {
+                                for (tag, c2) in sync_variants(c, n, mix(gi as u64, ci as u64 + code)) {
+                                    let mut s2 = s.clone();
+                                    s2.id = format!("{}{}", s.id, tag);
+                                    s2.phases = vec![runs_phase(vec![c2])];
+                                    exhaustive(&s2, &x, p.hooks || x.signal_inside, 64, 5_000, &mut emit);
+                                }
+                            }
                         }
                     }
                 }
@@ -960,6 +1037,8 @@ pub fn generate(p: &GenParams, out: &mut Out) {
                 let mut x = xopts_for(&c, rng.below(4));
                 x.defer = rng.chance(1, 2);
                 x.signal_inside = rng.chance(1, 2);
+                let mut c = c;
+                random_sync(&mut rng, &mut c, n, x.max_fail);
                 let sub = rng.next();
                 if !sel.take() {
                     continue;
@@ -1034,6 +1113,8 @@ pub fn generate(p: &GenParams, out: &mut Out) {
                 x.fail_bias = x.max_fail > 2;
                 x.stream_style = *rng.pick(&[0u8, 1, 2, 2]);
                 x.defer = rng.chance(1, 2);
+                x.multi_waker = rng.chance(1, 4);
+                random_sync(&mut rng, &mut c, n, x.max_fail);
                 let sub = rng.next();
                 if !sel.take() {
                     continue;
@@ -1066,17 +1147,23 @@ pub fn generate(p: &GenParams, out: &mut Out) {
                             if !focus_ok(c, &p.focus) {
                                 continue;
                             }
-                            for ds in [false, true] {
-                                if ds && !(thorough || n <= 2) {
+                            for variant in 0..3u8 {
+                                let ds = variant == 1;
+                                // variant 2: a second consumer task (own waker) may take over polling
+                                let mw = variant == 2;
+                                if (ds || mw) && !(thorough || n <= 2) {
+                                    continue;
+                                }
+                                if mw && n > 3 {
                                     continue;
                                 }
                                 if !sel.take() {
                                     continue;
                                 }
-                                let mut s = base_scn(format!("s{n}-{gi}-{code}-{ci}-{}", ds as u8), n, calls_of(e, gi as u64), reads.clone(), writes.clone());
+                                let mut s = base_scn(format!("s{n}-{gi}-{code}-{ci}-{variant}"), n, calls_of(e, gi as u64), reads.clone(), writes.clone());
                                 s.phases.push(runs_phase(vec![c.clone()]));
-                                let x = ExploreOpts { drop_stream: ds, ..Default::default() };
-                                exhaustive(&s, &x, p.hooks, 64, 30_000, &mut emit);
+                                let x = ExploreOpts { drop_stream: ds, multi_waker: mw, ..Default::default() };
+                                exhaustive(&s, &x, p.hooks, 64, if mw { 6_000 } else { 30_000 }, &mut emit);
                             }
                         }
                     }
@@ -1100,7 +1187,12 @@ pub fn generate(p: &GenParams, out: &mut Out) {
                     }
                     c = random_cfg(&mut rng, true);
                 }
-                let x = ExploreOpts { drop_stream: rng.chance(1, 3), stream_style: *rng.pick(&[0u8, 0, 1, 2]), ..Default::default() };
+                let x = ExploreOpts {
+                    drop_stream: rng.chance(1, 3),
+                    stream_style: *rng.pick(&[0u8, 0, 1, 2]),
+                    multi_waker: rng.chance(1, 3),
+                    ..Default::default()
+                };
                 let sub = rng.next();
                 if !sel.take() {
                     continue;
@@ -1137,13 +1229,21 @@ pub fn generate(p: &GenParams, out: &mut Out) {
                         let mut s = base_scn(format!("i{n}-{gi}-{code}"), n, calls_of(e, gi as u64), reads, writes);
                         s.phases.push(runs_phase(vec![c.clone()]));
                         let x = if streams {
-                            ExploreOpts { drop_stream: n <= 2, ..Default::default() }
+                            ExploreOpts { drop_stream: n <= 2, multi_waker: n <= 2 && gi % 2 == 0 && MULTI_WAKER_IN_SPEC, ..Default::default() }
                         } else {
                             let mut x = xopts_for(&c, 2);
                             x.signal_inside = c.has_channel() && !c.pre_signal;
                             x
                         };
                         exhaustive(&s, &x, true, 64, 4000, &mut emit);
+                        if !streams && code == 0 {
+                            for (tag, c2) in sync_variants(&c, n, mix(gi as u64, 3)) {
+                                let mut s2 = s.clone();
+                                s2.id = format!("{}{}", s.id, tag);
+                                s2.phases = vec![runs_phase(vec![c2])];
+                                exhaustive(&s2, &x, true, 64, 2000, &mut emit);
+                            }
+                        }
                     }
                 }
             }
@@ -1178,7 +1278,8 @@ pub fn generate(p: &GenParams, out: &mut Out) {
             let max_n = if p.max_n > 0 { p.max_n } else { 6 };
             for i in 0..cnt {
                 // mostly small graphs; a third of the histories on graphs up to 16 functions
-                let n = if rng.chance(1, 3) { 7 + rng.below(12) } else { rng.below(max_n + 1) };
+                let long = !overlap && rng.chance(1, 5);
+                let n = if long { 1 + rng.below(5) } else if rng.chance(1, 3) { 7 + rng.below(12) } else { rng.below(max_n + 1) };
                 let dens = *rng.pick(&[0u64, 10, 20, 40, 60]);
                 let mut e = random_dag(&mut rng, n, dens, false);
                 if n >= 7 && rng.chance(1, 3) {
@@ -1198,7 +1299,8 @@ pub fn generate(p: &GenParams, out: &mut Out) {
                 }
                 let none = *rng.pick(&[50u64, 80, 100]);
                 let (reads, writes) = random_access(&mut rng, n, 2, none);
-                let k = if overlap { 2 } else { 2 + rng.below(2) };
+                // long histories: per-graph state that only builds up over several runs
+                let k = if overlap { 2 + rng.below(3) / 2 } else if long { 5 + rng.below(5) } else { 2 + rng.below(2) };
                 let mut runs: Vec<RunCfg> = Vec::new();
                 for _ in 0..k {
                     let st = rng.chance(1, 4);
@@ -1230,6 +1332,7 @@ pub fn generate(p: &GenParams, out: &mut Out) {
                     if overlap {
                         c.mutv = false;
                     }
+                    random_sync(&mut rng, &mut c, n, 2);
                     runs.push(c);
                 }
                 let x = ExploreOpts {
@@ -1243,6 +1346,8 @@ pub fn generate(p: &GenParams, out: &mut Out) {
                     signal_inside: rng.chance(1, 3),
                     fail_bias: false,
                     stream_style: *rng.pick(&[0u8, 0, 1, 2]),
+                    multi_waker: rng.chance(1, 4),
+                    late: 0,
                 };
                 let sub = rng.next();
                 if !sel.take() {
@@ -1251,7 +1356,8 @@ pub fn generate(p: &GenParams, out: &mut Out) {
                 let mut s = base_scn(format!("{}-{i}", if overlap { "mo" } else { "ms" }), n, calls_of(&e, rng.next()), reads, writes);
                 s.phases.push(runs_phase(runs));
                 let mut r2 = Rng::new(sub);
-                let (mut scn, mut trace) = random_walk(&s, &x, p.hooks || x.signal_inside, 10 * n + 24, &mut r2);
+                let depth = if long { k * (4 * n + 8) } else { 10 * n + 24 };
+                let (mut scn, mut trace) = random_walk(&s, &x, p.hooks || x.signal_inside, depth, &mut r2);
                 scn.id = s.id.clone();
                 if let Some(f) = trace.first_mut() {
                     f["scn"] = Value::String(scn.id.clone());
@@ -1299,6 +1405,8 @@ pub fn generate(p: &GenParams, out: &mut Out) {
                                     signal_inside: false,
                                     fail_bias: false,
                                     stream_style: 0,
+                                    multi_waker: false,
+                                    late: 0,
                                 };
                                 let mode = if overlap { "overlap" } else { "seq" };
                                 let mut emit2 = |sc: &Scenario, t: &[Value]| {
@@ -1311,6 +1419,343 @@ pub fn generate(p: &GenParams, out: &mut Out) {
                         }
                     }
                 }
+            }
+        }
+        // tokio's cooperative budget running out INSIDE fn_graph's own channel / lock operations: a random schedule
+        // (deferred completions, failures, in-poll signals) is recorded once and replayed with 96..=127 budget
+        // units already spent at the start of every task poll (or of every second one).
+        "budget" => {
+            let mut rng = Rng::new(p.seed ^ 0xB0D6E7);
+            let cnt = if p.count > 0 { p.count } else if thorough { 500 } else { 70 };
+            for i in 0..cnt {
+                let n = 2 + rng.below(3);
+                let dens = *rng.pick(&[0u64, 25, 50]);
+                let e = random_dag(&mut rng, n, dens, false);
+                let mut c = random_cfg(&mut rng, false);
+                for _ in 0..64 {
+                    if focus_ok(&c, &p.focus) && (c.is_try() || c.has_channel()) {
+                        break;
+                    }
+                    c = random_cfg(&mut rng, false);
+                }
+                if c.api.ends_with("for_each") && rng.chance(2, 3) {
+                    c.limit = -1;
+                }
+                c.pre_signal = false;
+                let mut x = xopts_for(&c, 2);
+                x.defer = true;
+                x.signal_inside = true;
+                x.fail_bias = rng.chance(1, 2);
+                let sub = rng.next();
+                let every_second = rng.chance(1, 3);
+                if !sel.take() {
+                    continue;
+                }
+                let mut s = base_scn(format!("bu-{i}"), n, calls_of(&e, rng.next()), vec![], vec![]);
+                s.tokio = true;
+                s.phases.push(runs_phase(vec![c]));
+                let mut r2 = Rng::new(sub);
+                let (scn, _) = random_walk(&s, &x, false, 6 * n + 12, &mut r2);
+                for b in 96..=127u32 {
+                    let mut s2 = scn.clone();
+                    s2.id = format!("bu-{i}-{b}");
+                    s2.burn = if every_second { vec![0, b] } else { vec![b] };
+                    let r = run_scenario(&s2, p.hooks || x.signal_inside, &x);
+                    emit(&s2, &r.trace);
+                }
+            }
+        }
+        // The same, systematically: EVERY schedule (deferred completions, one failure, in-poll signals) of the concurrent
+        // bodies on the graphs of 2 and 3 functions, each replayed with 1..=4 budget units left per task poll.
+        "budget_exh" => {
+            let max_n = if p.max_n > 0 { p.max_n } else { 3 };
+            let cfgs: Vec<RunCfg> = call_cfgs(false)
+                .into_iter()
+                .filter(|c| c.api.ends_with("for_each") && c.limit == -1 && !c.pre_signal && c.order == "fwd" && (c.is_try() || c.has_channel()))
+                .collect();
+            for n in 2..=max_n {
+                for (gi, e) in fwd_dags(n).iter().enumerate() {
+                    for (ci, c) in cfgs.iter().enumerate() {
+                        if !focus_ok(c, &p.focus) {
+                            continue;
+                        }
+                        if !sel.take() {
+                            continue;
+                        }
+                        let mut s = base_scn(format!("bx{n}-{gi}-{ci}"), n, calls_of(e, 0), vec![], vec![]);
+                        s.tokio = true;
+                        s.phases.push(runs_phase(vec![c.clone()]));
+                        let mut x = xopts_for(c, 1);
+                        x.defer = true;
+                        x.signal_inside = c.has_channel();
+                        x.signals = false;
+                        let hooks = p.hooks || x.signal_inside;
+                        let mut bases: Vec<Scenario> = Vec::new();
+                        let mut keep = |sc: &Scenario, _t: &[Value]| bases.push(sc.clone());
+                        exhaustive(&s, &x, false, 40, 4000, &mut keep);
+                        for (tag, c2) in sync_variants(c, n, mix(gi as u64, ci as u64)) {
+                            let mut s2 = s.clone();
+                            s2.id = format!("{}{}", s.id, tag);
+                            s2.phases = vec![runs_phase(vec![c2])];
+                            exhaustive(&s2, &x, false, 40, 1000, &mut keep);
+                        }
+                        for b in &bases {
+                            for left in 1..=4u32 {
+                                let mut s2 = b.clone();
+                                s2.id = format!("{}-l{left}", b.id);
+                                s2.burn = vec![128 - left];
+                                let r = run_scenario(&s2, hooks, &x);
+                                emit(&s2, &r.trace);
+                            }
+                        }
+                    }
+                }
+            }
+        }
+        // Sizes beyond the usual fixed-size thresholds, a handful of inputs each: functions declaring 17..40 data types,
+        // graphs mentioning up to 128 distinct types, functions with 256+ direct predecessors / successors, runs that
+        // process 256+ functions before they stop, streams over 1024+ functions without predecessors.
+        "scale" => {
+            let mut rng = Rng::new(p.seed ^ 0x5CA1E);
+            let reps = if p.count > 0 { p.count as usize } else if thorough { 6 } else { 1 };
+            let mut idx = 0u64;
+            // --focus types | preds | stop | roots selects a part
+            let part = |name: &str| p.focus.is_empty() || p.focus == name;
+            // (a) many types per function
+            for i in 0..(if part("types") { 60 * reps } else { 0 }) {
+                let n = 2 + rng.below(5);
+                let mut reads = vec![vec![]; n];
+                let mut writes = vec![vec![]; n];
+                if i % 3 == 0 {
+                    // everything from one pool: functions usually conflict on several types
+                    let pool = 18 + rng.below(40);
+                    for f in 0..n {
+                        let want = *rng.pick(&[3usize, 12, 17, 18, 24, 33]);
+                        let mut ts: Vec<usize> = (1..=pool).collect();
+                        for a in (1..ts.len()).rev() {
+                            let b = rng.below(a + 1);
+                            ts.swap(a, b);
+                        }
+                        ts.truncate(std::cmp::min(want, pool));
+                        let wpct = *rng.pick(&[5u64, 50, 95]);
+                        for t in ts {
+                            if rng.next() % 100 < wpct {
+                                writes[f].push(t);
+                            } else {
+                                reads[f].push(t);
+                            }
+                        }
+                    }
+                } else {
+                    // many types of its own per function, and a few types shared by two or three functions:
+                    // a pair of functions then conflicts on exactly one type
+                    let mut next = 1usize;
+                    for f in 0..n {
+                        let own = *rng.pick(&[0usize, 3, 15, 16, 17, 20]);
+                        let wpct = *rng.pick(&[0u64, 10, 50, 90, 100]);
+                        for _ in 0..own {
+                            if rng.next() % 100 < wpct {
+                                writes[f].push(next);
+                            } else {
+                                reads[f].push(next);
+                            }
+                            next += 1;
+                        }
+                    }
+                    for _ in 0..(1 + rng.below(3)) {
+                        let t = next;
+                        next += 1;
+                        let a = rng.below(n);
+                        let mut b = rng.below(n);
+                        if b == a {
+                            b = (a + 1) % n;
+                        }
+                        writes[a].push(t);
+                        if rng.chance(2, 3) {
+                            reads[b].push(t);
+                        } else {
+                            writes[b].push(t);
+                        }
+                        if rng.chance(1, 4) {
+                            reads[a].push(t);
+                        }
+                    }
+                    for v in reads.iter_mut().chain(writes.iter_mut()) {
+                        for a in (1..v.len()).rev() {
+                            let b = rng.below(a + 1);
+                            v.swap(a, b);
+                        }
+                    }
+                }
+                let dens = *rng.pick(&[0u64, 0, 20]);
+                let e = random_dag(&mut rng, n, dens, false);
+                let streams = rng.chance(1, 3);
+                let mut c = random_cfg(&mut rng, streams);
+                if !streams {
+                    c.api = (*rng.pick(&["for_each", "try_for_each"])).into();
+                    c.limit = -1;
+                    c.control = c.control && c.api == "try_for_each";
+                }
+                let sub = rng.next();
+                idx += 1;
+                if !sel.take() {
+                    continue;
+                }
+                let mut s = base_scn(format!("sc-ty-{i}-{idx}"), n, calls_of(&e, rng.next()), reads, writes);
+                s.phases.push(Phase::GraphInfo);
+                s.phases.push(runs_phase(vec![c.clone()]));
+                let x = xopts_for(&c, 1);
+                let mut r2 = Rng::new(sub);
+                let (mut scn, mut trace) = random_walk(&s, &x, p.hooks, 8 * n + 12, &mut r2);
+                scn.id = s.id.clone();
+                if let Some(f) = trace.first_mut() {
+                    f["scn"] = Value::String(scn.id.clone());
+                }
+                emit(&scn, &trace);
+            }
+            // (b) many distinct types in one graph: every function has a type of its own, a few share
+            for i in 0..(if part("types") { 4 * reps } else { 0 }) {
+                let n = *rng.pick(&[63usize, 64, 65, 66, 70, 100, 128]);
+                let mut reads = vec![vec![]; n];
+                let mut writes = vec![vec![]; n];
+                let mut order: Vec<usize> = (1..=n).collect();
+                if rng.chance(1, 2) {
+                    for a in (1..n).rev() {
+                        let b = rng.below(a + 1);
+                        order.swap(a, b);
+                    }
+                }
+                for f in 0..n {
+                    if rng.chance(3, 4) {
+                        writes[f].push(order[f]);
+                    } else {
+                        reads[f].push(order[f]);
+                    }
+                    if rng.chance(1, 10) {
+                        let t = 1 + rng.below(n);
+                        if !writes[f].contains(&t) && !reads[f].contains(&t) {
+                            reads[f].push(t);
+                        }
+                    }
+                }
+                let e: Vec<(usize, usize)> = if rng.chance(1, 2) { vec![] } else { random_dag(&mut rng, n, 1, false) };
+                let mut c = cfg(*rng.pick(&["for_each", "try_for_each", "stream"]), false, false);
+                if rng.chance(1, 2) {
+                    c.with = true;
+                    c.order = "rev".into();
+                }
+                let sub = rng.next();
+                idx += 1;
+                if !sel.take() {
+                    continue;
+                }
+                let mut s = base_scn(format!("sc-sp-{i}-{idx}"), n, calls_of(&e, rng.next()), reads, writes);
+                s.phases.push(Phase::GraphInfo);
+                s.phases.push(runs_phase(vec![c.clone()]));
+                let mut x = xopts_for(&c, 0);
+                x.stream_style = 2;
+                x.signals = false;
+                let mut r2 = Rng::new(sub);
+                let (mut scn, mut trace) = random_walk_online(&s, &x, false, 8 * n + 12, &mut r2);
+                scn.id = s.id.clone();
+                if let Some(f) = trace.first_mut() {
+                    f["scn"] = Value::String(scn.id.clone());
+                }
+                emit(&scn, &trace);
+            }
+            // (c) 256+ direct predecessors / successors; (d) 256+ functions processed before an early stop
+            let shapes: Vec<(&str, usize)> = vec![
+                ("fanin", 258), ("fanin", 302), ("fanout", 258), ("diamond", 259), ("chain_desc", 300), ("chain_asc", 280), ("fanin_fail", 290),
+            ];
+            for (si, (shape, n)) in shapes.iter().enumerate() {
+                let stop = matches!(*shape, "chain_desc" | "chain_asc" | "fanin_fail");
+                if !(if stop { part("stop") } else { part("preds") }) {
+                    continue;
+                }
+                for rep in 0..reps {
+                    let n = *n + if rep > 0 { rng.below(40) } else { 0 };
+                    let e: Vec<(usize, usize)> = match *shape {
+                        // 1..n-1 -> n
+                        "fanin" | "fanin_fail" => (1..n).map(|a| (a, n)).collect(),
+                        "fanout" => (2..=n).map(|b| (1, b)).collect(),
+                        "diamond" => {
+                            let mut v: Vec<(usize, usize)> = (2..n).map(|b| (1, b)).collect();
+                            v.extend((2..n).map(|a| (a, n)));
+                            v
+                        }
+                        "chain_desc" => (1..n).map(|a| (a + 1, a)).collect(),
+                        _ => (1..n).map(|a| (a, a + 1)).collect(),
+                    };
+                    let early_stop = matches!(*shape, "chain_desc" | "chain_asc" | "fanin_fail");
+                    let mut c = match (si + rep) % 4 {
+                        0 => cfg("stream", false, false),
+                        1 => cfg("for_each", false, false),
+                        2 => cfg("fold", rep % 2 == 1, false),
+                        _ => cfg("try_for_each", false, rep % 2 == 1),
+                    };
+                    if early_stop {
+                        c = if (si + rep) % 2 == 0 { cfg("try_for_each", false, rep % 2 == 1) } else { cfg("for_each", false, false) };
+                        if c.api == "for_each" {
+                            c.with = true;
+                            c.strategy = "finish".into();
+                        }
+                    }
+                    if *shape == "fanout" || rng.chance(1, 3) {
+                        c.with = true;
+                        c.order = if *shape == "fanout" || rng.chance(1, 2) { "rev".into() } else { "fwd".into() };
+                    }
+                    if *shape == "chain_asc" {
+                        c.with = true;
+                        c.order = "rev".into();
+                    }
+                    let sub = rng.next();
+                    idx += 1;
+                    if !sel.take() {
+                        continue;
+                    }
+                    let mut s = base_scn(format!("sc-{shape}-{n}-{idx}"), n, calls_of(&e, 0), vec![], vec![]);
+                    s.phases.push(runs_phase(vec![c.clone()]));
+                    let mut x = xopts_for(&c, if early_stop { 1 } else { 0 });
+                    x.signals = early_stop && c.has_channel();
+                    x.late = if early_stop { 257 + rng.below(n - 262) } else { 0 };
+                    x.stream_style = 2;
+                    let mut r2 = Rng::new(sub);
+                    let (mut scn, mut trace) = random_walk_online(&s, &x, false, 6 * n + 40, &mut r2);
+                    scn.id = s.id.clone();
+                    if let Some(f) = trace.first_mut() {
+                        f["scn"] = Value::String(scn.id.clone());
+                    }
+                    emit(&scn, &trace);
+                }
+            }
+            // (e) more functions without predecessors than any fixed preload size
+            for rep in 0..(if part("roots") { reps } else { 0 }) {
+                let roots = 1026 + rng.below(40);
+                let n = roots + 2;
+                // the last two functions: parent -> child (so that a non-root exists)
+                let e = vec![(n - 1, n)];
+                let mut c = cfg("stream", false, false);
+                if rep % 2 == 1 {
+                    c.with = true;
+                    c.order = "rev".into();
+                }
+                let sub = rng.next();
+                idx += 1;
+                if !sel.take() {
+                    continue;
+                }
+                let mut s = base_scn(format!("sc-roots-{n}-{idx}"), n, calls_of(&e, 0), vec![], vec![]);
+                s.phases.push(runs_phase(vec![c.clone()]));
+                let mut x = xopts_for(&c, 0);
+                x.signals = false;
+                x.stream_style = if rep % 3 == 2 { 2 } else { 1 };
+                let mut r2 = Rng::new(sub);
+                let (mut scn, mut trace) = random_walk_online(&s, &x, false, 4 * n + 40, &mut r2);
+                scn.id = s.id.clone();
+                if let Some(f) = trace.first_mut() {
+                    f["scn"] = Value::String(scn.id.clone());
+                }
+                emit(&scn, &trace);
             }
         }
         f => {
